@@ -21,6 +21,7 @@ import WuffsVerif.Proof.Flate.Single
 import WuffsVerif.Proof.Flate.Walk2
 import WuffsVerif.Proof.Flate.FixedCut2
 import WuffsVerif.Proof.Flate.Assembly
+import WuffsVerif.Proof.Flate.CutAll
 
 namespace WuffsVerif.Props.C16
 open WuffsVerif.Flate WuffsVerif.Flate.Cut WuffsVerif.Flate.Spec
@@ -138,21 +139,20 @@ theorem inflate_empty_fixed_block : Spec.inflate #[3, 0] = some (#[], 2) := Spec
 
 Full statement (`cut_prefix`), for every valid DEFLATE stream:
 
--- OPEN: theorem cut_prefix (w : Bool) (s : Bytes) (out : Bytes) (n : Nat) (limit : Int) (r : CutResult)
+-- OPEN (one clause): theorem cut_prefix (w : Bool) (s : Bytes) (out : Bytes) (n : Nat) (limit : Int) (r : CutResult)
 --     (hs : Spec.inflate s = some (out, n)) (h : Cut.Cut w s limit = .ok r) :
 --     Spec.inflate (r.encoded.extract 0 r.encodedLen) = some (out.extract 0 r.decodedLen, r.encodedLen) ∧
 --     r.decodedLen ≤ out.size ∧
 --     ((s.size : Int) ≤ limit → s.size ≤ 2 ^ 30 → r.decodedLen = out.size) ∧
 --     (w = true → r.written = out.extract 0 r.decodedLen)
--- (needs, for Huffman blocks: `lookup_eq_slow`, `construct_canonical`, the agreement of
---  `doDynamicHuffman`'s header parser with `Spec.dynamicHeader`, and locality of `Spec.inflate`
---  under the end-code/final-bit surgery; not closed in this effort.  Note the `s.size ≤ 2^30`
---  premise: `Cut` clamps `maxEncodedLen` to 1 GiB, so for longer streams "limit ≥ len ⇒ whole" is
---  false of the code as written.)
+-- Proved below as `cut_prefix_partial` for EVERY valid stream (stored, fixed and dynamic Huffman blocks, any
+-- number, any order) except the third clause ("limit ≥ len ⇒ the whole output"), which is proved only for
+-- streams of stored blocks (`cut_prefix_stored_partial`) and checked by the oracle otherwise.  (Note the
+-- `s.size ≤ 2^30` premise: `Cut` clamps `maxEncodedLen` to 1 GiB, so for longer streams that clause is
+-- false of the code as written.  `hT` below excludes outputs of 2 GiB or more, where Go's `int32`
+-- `decodedLen` would overflow.)
 
-What is proved is the statement for every stream that consists of stored blocks — this covers
-`doStored` (shortening + LEN/NLEN rewrite), the final-bit patching of the previous block in `cut`,
-the `errInternalNoProgress` un-read, and the `cutSingleBlock` fallback (both of its outcomes). -/
+The stored-block theorems of round 1 come first. -/
 
 /-- **cut_prefix for streams of stored blocks** (`_partial`: Huffman blocks are missing).
 `hT` excludes outputs of 2 GiB or more (where Go's `int32` `decodedLen` would overflow). -/
@@ -436,6 +436,28 @@ theorem cut_prefix_nodynamic_partial (w : Bool) (s T : Bytes) (n0 : Nat) (limit 
     Spec.inflate (r.encoded.extract 0 r.encodedLen) = some (T.extract 0 r.decodedLen, r.encodedLen) ∧
     r.decodedLen ≤ T.size ∧ (w = true → r.written = T.extract 0 r.decodedLen) :=
   Cut.Cut_nodyn w s T n0 limit r hs hT hnd h
+
+/-- **cut_prefix — THE property, for EVERY valid DEFLATE stream** (`_partial` only because the clause
+"limit ≥ len ⇒ the whole output" is not included, see the OPEN note above): `s` is any byte string that
+the RFC 1951 spec decoder maps to `T` — stored, fixed-Huffman and dynamic-Huffman blocks, any number of
+them in any order, at any bit alignment, any trailing bytes — `limit` is any limit, `w` says whether a
+writer is passed.  Whenever `Cut` succeeds, the first `encodedLen` bytes of the modified buffer are a
+complete valid DEFLATE stream (the spec decoder consumes exactly `encodedLen` bytes) whose decompression
+is exactly the first `decodedLen` bytes of the original decompression, `decodedLen ≤ |T|`, and the writer
+receives exactly those bytes.  (`encodedLen ≤ limit` and `≤ len`: `cut_lengths_in_bounds`; no panic on
+arbitrary bytes: `cut_never_panics`.)
+Proof: `Cut.cutLoop_walk` (the block loop of `cut` in lock-step with the spec's block loop) over
+`stored_blocksim`, `fixed_blocksim`, `dynamic_blocksim` (the header parser of `doDynamicHuffman` against
+`Spec.dynamicHeader`: `doDynamicHuffman_eq`, `readCLL_sim`, `readLengths_sim`, `mkHuff_pad`), the
+locality of the spec decoder (`blockAt_stored/fixed/dynamic`, `dynamicHeader_local`, `huffTok_local`),
+`decode_agrees_with_spec`, `huffman_walk_tracks_spec`, `huffman_surgery`, `eob_decodes` (via
+`endCode_canonical`), the bit-level effect of the in-place writes (`writeEndCode_bits`,
+`patchFinalBit_bits`, `finish_bits`) and `cutSingleBlock_prefix`. -/
+theorem cut_prefix_partial (w : Bool) (s T : Bytes) (n0 : Nat) (limit : Int) (r : CutResult)
+    (hs : Spec.inflate s = some (T, n0)) (hT : T.size < 2147483648) (h : Cut.Cut w s limit = .ok r) :
+    Spec.inflate (r.encoded.extract 0 r.encodedLen) = some (T.extract 0 r.decodedLen, r.encodedLen) ∧
+    r.decodedLen ≤ T.size ∧ (w = true → r.written = T.extract 0 r.decodedLen) :=
+  Cut.Cut_all w s T n0 limit r hs hT h
 
 /-- non-vacuity: `4b 04 00` (the letter "a" as one final fixed-Huffman block) meets the hypotheses. -/
 example : Spec.bitAt #[0x4b, 0x04, 0x00] 0 = 1 ∧ Spec.bitsLE #[0x4b, 0x04, 0x00] 1 2 = 1 := by decide
